@@ -22,6 +22,7 @@ static void init() {
   if (const char* e = getenv("W_OUT")) g_out = e;
   if (const char* e = getenv("W_FAILDIR")) g_faildir = e;
   PM = prop_mask(g_prop);
+  if (const char* e = getenv("W_COLD")) if (*e == '1') { real::cold_start(); ST.label("process_started_with_a_call_before_any_reporter_was_installed"); }
   g_prof = make_profile(g_profile);
   ST.rule = "libFuzzer (coverage-guided): bytes chunked into 26-byte records and decoded exactly like the rapidcheck cases (profile '" + g_profile + "'); byte 0 selects the teardown permutation";
   atexit(flush_stats);
